@@ -157,6 +157,14 @@ impl RemovalBuffer {
         }
     }
 
+    /// Forgets buffered removals for an entity that is no longer replicated.
+    pub(super) fn remove_entity(&mut self, entity: Entity) {
+        if let Some(mut removed_ids) = self.removals.remove(&entity) {
+            removed_ids.clear();
+            self.ids_buffer.push(removed_ids);
+        }
+    }
+
     /// Clears all removals.
     ///
     /// Keeps the allocated memory for reuse.
